@@ -159,56 +159,21 @@ var restoreCmd = &cobra.Command{
 			}
 
 			for _, arg := range args {
-				argAbsPath, err := filepath.Abs(arg)
-				if err != nil {
-					return fmt.Errorf("fail to get arg abs path: %w", err)
+				cleanedArg := filepath.Clean(arg)
+				cleanedArg = strings.ReplaceAll(cleanedArg, `\`, "/")
+
+				// restore --staged concerns the staging area and the HEAD commit only, so the argument is read against
+				// them, not against what happens to be on disk: it names a directory if paths are known beneath it,
+				// and (also) a file if it is staged or committed itself
+				paths := stagedPathsUnderDirectory(cleanedArg, client.Idx, tree)
+				_, _, isEntryFound := client.Idx.GetEntry([]byte(cleanedArg))
+				node, isNodeFound := object.GetNode(tree.Children, cleanedArg)
+				if isEntryFound || (isNodeFound && len(node.Children) == 0) || len(paths) == 0 {
+					// restoreIndex refuses the path known neither to the staging area nor to HEAD
+					paths = append(paths, cleanedArg)
 				}
-				f, err := os.Stat(argAbsPath)
-				if err != nil { // even if the file is not found, the file might be the deleted file
-					cleanedArg := filepath.Clean(arg)
-					cleanedArg = strings.ReplaceAll(cleanedArg, `\`, "/")
-
-					// a deleted directory is known by the paths beneath it in the index or in the HEAD commit
-					if paths := stagedPathsUnderDirectory(cleanedArg, client.Idx, tree); len(paths) > 0 {
-						for _, path := range paths {
-							if err := restoreIndex(client.RootGoitPath, path, client.Idx, tree); err != nil {
-								return err
-							}
-						}
-					} else { // a deleted file; restoreIndex refuses the path known to neither
-						if err := restoreIndex(client.RootGoitPath, cleanedArg, client.Idx, tree); err != nil {
-							return err
-						}
-					}
-
-					continue
-				}
-
-				if f.IsDir() { // directory
-					cleanedArg := filepath.Clean(arg)
-					cleanedArg = strings.ReplaceAll(cleanedArg, `\`, "/")
-
-					// targets are the paths under the directory which are in the index or in the HEAD commit
-					// untracked files in the working tree are ignored
-					paths := stagedPathsUnderDirectory(cleanedArg, client.Idx, tree)
-					if len(paths) == 0 {
-						// nothing is known beneath the directory, but the name itself may be a staged or committed file:
-						// what is on disk must not hide it from the staging area
-						paths = []string{cleanedArg}
-					}
-
-					for _, path := range paths {
-						// restore index
-						if err := restoreIndex(client.RootGoitPath, path, client.Idx, tree); err != nil {
-							return err
-						}
-					}
-				} else { // file
-					cleanedArg := filepath.Clean(arg)
-					cleanedArg = strings.ReplaceAll(cleanedArg, `\`, "/")
-
-					// restore index
-					if err := restoreIndex(client.RootGoitPath, cleanedArg, client.Idx, tree); err != nil {
+				for _, path := range paths {
+					if err := restoreIndex(client.RootGoitPath, path, client.Idx, tree); err != nil {
 						return err
 					}
 				}
